@@ -8,7 +8,7 @@ TRUSTED_BASE = [
     "no axiom: every property theorem is 'Closed under the global context' (Print Assumptions)",
     "hand-written model coq/Model/{Base,Atomic,Machine}.v of adopt.rs, cycle.rs, drop.rs, link.rs and the counter/Weak/consuming-API part of rc.rs",
     "tie to the source: differential run (this check) of the model extracted to OCaml (ExtrOcamlBasic only: bool, option, unit, list, prod, sumbool mapped to OCaml types; nat, N, positive stay Coq datatypes) against the harness built from /repo's working tree with --cfg cactusref_verif",
-    "second tie, by translation: tools/rs2v.py regenerates on every run (a) the counter protocol (trait RcInnerPtr of src/rc.rs) as Gallina, gen/CountersProofs.v proves the model's counter functions equal to it for counters below usize::MAX - 1 (C04, C05, C06, C16); (b) adopt_unchecked/unadopt of src/adopt.rs as a command list whose meaning is gen/AdoptLang.v, gen/AdoptProofs.v proves heap effect = model's adopt/unadopt and borrow events = Proofs/Borrow.v's (C08, C10); (c) the per-entry body of cycle_refs and the external-owner predicate of orphaned_cycle (src/cycle.rs), gen/CycleProofs.v proves them equal to the model's visit_entries and sgt, the loop skeleton being matched textually (C01, C03, C13, C15); (d) the dispatch of Rc::drop (src/drop.rs) as a decision list, gen/DropProofs.v proves it equal to the model's drop_strong (C01, C02, C03, C14); (e) the tree of effect markers of drop_unreachable, drop_unreachable_with_adoptions, drop_cycle, release_links, gen/EffectsProofs.v equates them with the trees the model's frames implement (a structured census: C02, C04, C05, C10, C11, C12); (g) the count observers, clone, downgrade and Weak::upgrade of src/rc.rs, gen/HandlesProofs.v proves them equal to what the model's actions return and do (C05, C06, C16); (h) the purge loops and phase one of drop_cycle of src/drop.rs, gen/PurgeProofs.v and gen/BustProofs.v prove them equal to the model's purge_loop and bust_one (C01, C02, C06, C08, C12, C13); (f) Links::insert / Links::remove of src/link.rs, gen/LinksProofs.v proves them equal to the model's tbl_insert / tbl_remove (C08, C13, C14); trusted: the translator, its subsets, its reading of checked usize arithmetic and of guard scopes, and that the trait's impls supply the two cells and override nothing; the borrow-site census of C10 (lib/props.py:borrow_census) is a second, purely syntactic, source reader",
+    "second tie, by translation: tools/rs2v.py regenerates on every run (a) the counter protocol (trait RcInnerPtr of src/rc.rs) as Gallina, gen/CountersProofs.v proves the model's counter functions equal to it for counters below usize::MAX - 1 (C04, C05, C06, C16); (b) adopt_unchecked/unadopt of src/adopt.rs as a command list whose meaning is gen/AdoptLang.v, gen/AdoptProofs.v proves heap effect = model's adopt/unadopt and borrow events = Proofs/Borrow.v's (C08, C10); (c) the per-entry body of cycle_refs and the external-owner predicate of orphaned_cycle (src/cycle.rs), gen/CycleProofs.v proves them equal to the model's visit_entries and sgt, the loop skeleton being matched textually (C01, C03, C13, C15); (d) the dispatch of Rc::drop (src/drop.rs) as a decision list, gen/DropProofs.v proves it equal to the model's drop_strong (C01, C02, C03, C14); (e) the tree of effect markers of drop_unreachable, drop_unreachable_with_adoptions, drop_cycle, release_links, gen/EffectsProofs.v equates them with the trees the model's frames implement (a structured census: C02, C04, C05, C10, C11, C12); (g) the count observers, clone, downgrade and Weak::upgrade of src/rc.rs, gen/HandlesProofs.v proves them equal to what the model's actions return and do (C05, C06, C16); (h) the purge loops and phase one of drop_cycle of src/drop.rs, gen/PurgeProofs.v and gen/BustProofs.v prove them equal to the model's purge_loop and bust_one (C01, C02, C06, C08, C12, C13); (f) Links::insert / Links::remove of src/link.rs, gen/LinksProofs.v proves them equal to the model's tbl_insert / tbl_remove (C08, C13, C14); trusted: the translator, its subsets, its reading of checked usize arithmetic and of guard scopes, and that the trait's impls supply the two cells and override nothing; the borrow-site census of C10 (lib/props.py:borrow_census) and the digest census of the untranslated functions of src/rc.rs (lib/props.py:source_census; C05, C06, C07, C12) are purely syntactic source readers",
     "OCaml 4.13.1 compiler, ocaml/driver.ml (line protocol, enumerator, generator), lib/*.py orchestration",
     "Rust harness harness/src/{main,interp}.rs, its global allocator, the verif hooks in /repo (event callback, counters, table snapshot), rustc nightly, hashbrown, std",
     "modelled rather than verified: payload type and its drop order; Rust unwinding rules for Vec/slice/tuple/struct drop glue; no user code inside atomic regions; hashbrown as a finite map with arbitrary stable iteration order, allocating at first insert and never shrinking; RefCell borrow scopes; abort as process termination; counter overflow near 2^64 excluded; address identity; everything in rc.rs that merely delegates to T or to layout computations",
